@@ -186,13 +186,36 @@ class InRamPolicySupporter(policy_supporter.PolicySupporter):
         vz.MetricType.OBJECTIVE):
       raise ValueError('Requires at least one objective metric.')
 
+    # Only completed, feasible trials that report a number for every objective
+    # can be optimal. (A NaN label row would also empty the Pareto frontier.)
+    objective_names = [
+        m.name
+        for m in self.study_config.metric_information.of_type(
+            vz.MetricType.OBJECTIVE
+        )
+    ]
+
+    def _reports_all_objectives(trial: vz.Trial) -> bool:
+      measurement = trial.final_measurement
+      return (
+          measurement is not None
+          and not trial.infeasible
+          and all(
+              name in measurement.metrics
+              and not np.isnan(measurement.metrics[name].value)
+              for name in objective_names
+          )
+      )
+
+    trials = [t for t in self.trials if _reports_all_objectives(t)]
+    if not trials:
+      return []
+
     # Add safety warping and remove safety metrics from conversion.
     safety_checker = multimetric.SafetyChecker(
         self.study_config.metric_information
     )
-    warped_trials = safety_checker.warp_unsafe_trials(
-        copy.deepcopy(self.trials)
-    )
+    warped_trials = safety_checker.warp_unsafe_trials(copy.deepcopy(trials))
     config_without_safe = copy.deepcopy(self.study_config)
     config_without_safe.metric_information = (
         self.study_config.metric_information.exclude_type(vz.MetricType.SAFETY)
@@ -208,13 +231,13 @@ class InRamPolicySupporter(policy_supporter.PolicySupporter):
       count = count or 1  # Defaults to 1.
       labels = converter.to_labels(warped_trials).squeeze()
       sorted_idx = np.argsort(-labels)  # np.argsort sorts in ascending order.
-      return list(np.asarray(self.trials)[sorted_idx[:count]])
+      return list(np.asarray(trials)[sorted_idx[:count]])
     else:
       algorithm = multimetric.FastParetoOptimalAlgorithm()
       is_optimal = algorithm.is_pareto_optimal(
           points=converter.to_labels(warped_trials)
       )
-      return list(np.asarray(self.trials)[is_optimal][:count])
+      return list(np.asarray(trials)[is_optimal][:count])
 
   def SetPriorStudy(
       self, study: vz.ProblemAndTrials, study_guid: Optional[str] = None
